@@ -131,6 +131,19 @@ mod verif_c12 {
     #[kani::unwind(4)]
     #[kani::stub(std::fmt::format, fmt_stub)]
     fn c12_has_hash_is_pure_for_tuples() {
+        has_hash_pure_case(true);
+        kani::cover!(true, "reach-end");
+    }
+
+    #[kani::proof]
+    #[kani::unwind(4)]
+    #[kani::stub(std::fmt::format, fmt_stub)]
+    fn c12_has_hash_is_pure_for_tuples_unhashable_last() {
+        has_hash_pure_case(false);
+        kani::cover!(true, "reach-end");
+    }
+
+    fn has_hash_pure_case(first: bool) {
         use crate::memory::verif_mem::Placed;
         use crate::object::{ObjTuple, ObjVec};
         use std::cell::RefCell;
@@ -138,7 +151,6 @@ mod verif_c12 {
         let mut vec = Placed::new(RefCell::new(ObjVec::new(Gc::dangling())));
         let unhashable = Value::ObjVec(vec.gc());
         assert!(!unhashable.has_hash(), "a vector is not hashable");
-        let first: bool = kani::any();
         let elems = if first { vec![unhashable, Value::Number(x)] } else { vec![Value::Number(x), unhashable] };
         let mut bad = Placed::new(ObjTuple::new(Gc::dangling(), elems));
         let vbad = Value::ObjTuple(bad.gc());
@@ -146,7 +158,6 @@ mod verif_c12 {
         let vouter = Value::ObjTuple(outer.gc());
         let mut good = Placed::new(ObjTuple::new(Gc::dangling(), vec![Value::Number(x), Value::None]));
         let vgood = Value::ObjTuple(good.gc());
-        kani::cover!(!first, "reach-unhashable-last");
         assert!(!vbad.has_hash(), "a tuple holding a vector is unhashable");
         assert!(!vbad.has_hash(), "... and still unhashable when asked again");
         assert!(!vouter.has_hash(), "so is a tuple nesting it");
